@@ -1510,8 +1510,30 @@ def emit_stack(i, stack, extra=""):
     else:
         again = again.replace("@@MKPREV@@", f"auto cp = vec<typename field<B>::coordinate_t, {ct}, {N}>(prev_, 0);")
         args = ", ".join(f"fromb<{ct}>(in.coord[{k}])" for k in range(N))
+        # the variadic form with arguments of DIFFERENT arithmetic types (each converts to the coordinate scalar on its own): only
+        # when every component is a small integer, so that int / unsigned / long / double all hold it exactly
+        mixed = ""
+        if N >= 2:
+            conds = " && ".join(f"small_int(c[{k}])" for k in range(N))
+            margs = ", ".join([f"static_cast<int>(c[{k}])", f"(c[{k}] >= 0 ? 0 : 0) + (c[{k}] >= 0 ? static_cast<long>(static_cast<unsigned>(c[{k}])) : static_cast<long>(c[{k}]))",
+                               f"static_cast<double>(c[{k}])"][k % 3] for k in range(N))
+            uargs = ", ".join([f"static_cast<int>(c[{k}])", f"static_cast<unsigned>(c[{k}])", f"static_cast<double>(c[{k}])"][k % 3] for k in range(N))
+            nonneg = " && ".join(f"c[{k}] >= 0" for k in range(N))
+            # an all-integer pack in which a (possibly negative) int sits next to unsigned values: each argument converts on its own,
+            # never through a common type
+            iargs = ", ".join([f"static_cast<int>(c[{k}])" if k == 0 else f"static_cast<unsigned>(c[{k}])" for k in range(N)])
+            icond = " && ".join(f"c[{k}] >= 0" for k in range(1, N))
+            jargs = ", ".join([f"static_cast<int>(c[{k}])" if k == N - 1 else f"static_cast<unsigned>(c[{k}])" for k in range(N)])
+            jcond = " && ".join(f"c[{k}] >= 0" for k in range(0, N - 1))
+            mixed = (f"  if ({conds} && {icond}) {{ auto ri = v.at({iargs}); if (out(ri, {M}) != out(r1, {M})) {{ std::cerr << "
+                     f"\"Assertion `at(int, unsigned...) == at(vector)' failed: \" << out(ri, {M}) << \" vs \" << out(r1, {M}) << std::endl; std::abort(); }} }}\n"
+                     f"  if ({conds} && {jcond}) {{ auto rj = v.at({jargs}); if (out(rj, {M}) != out(r1, {M})) {{ std::cerr << "
+                     f"\"Assertion `at(unsigned..., int) == at(vector)' failed: \" << out(rj, {M}) << \" vs \" << out(r1, {M}) << std::endl; std::abort(); }} }}\n")
+            mixed += (f"  if ({conds}) {{\n    auto rm = ({nonneg}) ? v.at({uargs}) : v.at({margs});\n"
+                     f"    if (out(rm, {M}) != out(r1, {M})) {{ std::cerr << \"Assertion `at(scalars of mixed arithmetic types) == at(vector)' failed: \" "
+                     f"<< out(rm, {M}) << \" vs \" << out(r1, {M}) << std::endl; std::abort(); }}\n  }}\n")
         at = (f"  auto c = vec<typename field<B>::coordinate_t, {ct}, {N}>(in.coord, 0);\n  {reset}auto r1 = v.at(c);\n{tail1}"
-              f"  {reset}auto r2 = v.at({args});\n{tail2}{again}  return out(r1, {M}) + \" | \" + out(r2, {M}){ext};\n")
+              f"  {reset}auto r2 = v.at({args});\n{tail2}{mixed}{again}  return out(r1, {M}) + \" | \" + out(r2, {M}){ext};\n")
     return (f"namespace s{i} {{\n{log}" + "\n".join(lines) + f"\nusing B = {B};\nstatic std::unique_ptr<field<B>> F;\n"
             f"std::string setup(const In & in) {{\n  F = std::make_unique<field<B>>(make_parameter_pack({', '.join(parts)}));\n  return \"ok\";\n}}\n"
             f"std::string at(const In & in) {{\n  if (!F) return \"nosetup\";\n  typename field<B>::view_t v(*F);\n"
